@@ -57,3 +57,37 @@ Theorem C07_validator_reports_first_repeat o file b pat content ks k :
   keep_unique o file b = (let? sev := sev_of (b_attrs b) in Ok [key_diag b k V_UNIQUE sev []]).
 Proof. exact (keep_unique_first_dup o file b pat content ks k). Qed.
 Print Assumptions C07_validator_reports_first_repeat.
+
+(* Whenever two keys coincide and the severity is well-formed, exactly one diagnostic is produced, at the first repeated key (the 'if' direction at validator level). *)
+Theorem C07_repeat_is_reported o file b pat content ks sev :
+  get_attr (T "keep-unique") (b_attrs b) = Some pat ->
+  content_of file b = Ok content ->
+  keys_of o pat E_UNIQUE_PATTERN content = Ok ks ->
+  ~ NoDup (map k_val ks) ->
+  sev_of (b_attrs b) = Ok sev ->
+  exists k, first_dup ks k /\ keep_unique o file b = Ok [key_diag b k V_UNIQUE sev []].
+Proof. exact (keep_unique_dup o file b pat content ks sev). Qed.
+Print Assumptions C07_repeat_is_reported.
+
+(* A broken severity attribute cannot hide a repeated key: the run stops with the severity error. *)
+Theorem C07_bad_severity_fails_closed o file b pat content ks e :
+  get_attr (T "keep-unique") (b_attrs b) = Some pat ->
+  content_of file b = Ok content ->
+  keys_of o pat E_UNIQUE_PATTERN content = Ok ks ->
+  ~ NoDup (map k_val ks) ->
+  sev_of (b_attrs b) = Err e ->
+  keep_unique o file b = Err e.
+Proof. exact (keep_unique_dup_bad_severity o file b pat content ks e). Qed.
+Print Assumptions C07_bad_severity_fails_closed.
+
+(* Complete outcome table once the keys are known: silent with distinct keys, else one diagnostic at the first repeat or the severity error - nothing else. *)
+Theorem C07_outcome_table o file b pat content ks :
+  get_attr (T "keep-unique") (b_attrs b) = Some pat ->
+  content_of file b = Ok content ->
+  keys_of o pat E_UNIQUE_PATTERN content = Ok ks ->
+  (NoDup (map k_val ks) /\ keep_unique o file b = Ok []) \/
+  (exists k, first_dup ks k /\
+     ((exists sev, sev_of (b_attrs b) = Ok sev /\ keep_unique o file b = Ok [key_diag b k V_UNIQUE sev []]) \/
+      (sev_of (b_attrs b) = Err E_SEVERITY /\ keep_unique o file b = Err E_SEVERITY))).
+Proof. exact (keep_unique_outcomes o file b pat content ks). Qed.
+Print Assumptions C07_outcome_table.
